@@ -940,9 +940,31 @@ fn drive_c18(sc: &E2Scenario, rep: &mut RunReport) {
             if cmds.len() == 2 && fmt != "json" {
                 continue;
             }
-            let (r, after) = rn.fresh(cmds, fmt, h, rd, &[]);
+            sandbox::reset_tree(&tree0);
+            let dirs_before = sandbox::snapshot_dirs();
+            let (r, after) = rn.on_tree(cmds, fmt, h, rd, &[]);
             let inv = Invocation { commands: cmds, format: fmt, result: &r, before: &tree0, after: &after };
             let parsed = check_invocation(sc, &inv, rep, "");
+            // directories count as well: `check` creates none, and `generate` creates none when
+            // check fails (after a successful generate they are the parents of listed files)
+            if !r.trapped() {
+                let new_dirs: Vec<String> = sandbox::snapshot_dirs().difference(&dirs_before).cloned().collect();
+                let failed_check = r.exit == 1 && parsed.as_ref().is_some_and(|p| !p.diags.is_empty());
+                if !new_dirs.is_empty() && (!cmds.contains(&"generate") || failed_check) {
+                    let class = if cmds.contains(&"generate") { "C18.7-writes-after-failed-check" } else { "C18.7-check-writes" };
+                    rep.violate(&["C18"], class, format!("`{} --output-format {fmt}`: exit {} and the directories {new_dirs:?} were created", cmds.join(" "), r.exit));
+                } else if r.exit == 0 && cmds.contains(&"generate") {
+                    if let Some(p) = &parsed {
+                        if fmt == "json" {
+                            for d in &new_dirs {
+                                if !p.listed.iter().any(|l| l.starts_with(&format!("{d}/"))) {
+                                    rep.violate(&["C18"], "C18.7-written-not-listed", format!("`{}`: the directory {d} was created but holds no listed file", cmds.join(" ")));
+                                }
+                            }
+                        }
+                    }
+                }
+            }
             // riders on successful generation
             if cmds.contains(&"generate") && fmt == "json" && r.exit == 0 {
                 if let Some(p) = &parsed {
@@ -1877,9 +1899,12 @@ fn drive_c18f(sc: &E2Scenario, rep: &mut RunReport) {
         let changed = changed_paths(&tree0, &after);
         let transparent = f.action == "eintr" || f.action == "short";
         if transparent {
+            if r.exit == 0 {
+                artifacts::check_artifacts(sc, &tree0, &after, &p.listed, rep);
+            }
             if r.exit != g.exit || r.stdout != g.stdout || after != gtree {
                 rep.violate(
-                    &["C18"],
+                    &["C18", "C17"],
                     &format!("C18.F-transparent-fault-visible:{}", label),
                     format!("{what}: the run differs from the fault-free run: exit {} stdout {} files {:?}", r.exit, tail(&r.stdout_str()), changed_paths(&gtree, &after)),
                 );
@@ -1910,7 +1935,7 @@ fn drive_c18f(sc: &E2Scenario, rep: &mut RunReport) {
                     artifacts::check_artifacts(sc, &tree0, &after, &p.listed, rep);
                     if after != gtree {
                         rep.violate(
-                            &["C18"],
+                            &["C18", "C17"],
                             &format!("C18.F-success-after-failed-write:{}", label),
                             format!("{what}: exit 0 but the tree differs from the fault-free result: {:?}", changed_paths(&gtree, &after)),
                         );
